@@ -390,15 +390,81 @@ def harmless_alpha_override(w, text):
     return None, False
 
 
+def validator_run(ctx, w, texts_):
+    """The validator script over several files in one run: each file is a
+    load of its own.  -> (status, number of message lines)"""
+    import contextlib
+    import gc
+    from ZConfig import validator
+    d = os.path.join(ctx.tmp, "c12val")
+    shutil.rmtree(d, ignore_errors=True)
+    os.makedirs(d)
+    sp = os.path.join(d, "schema.xml")
+    with open(sp, "w", encoding="utf-8") as f:
+        f.write(w.xml)
+    args = ["-s", sp]
+    for i, t in enumerate(texts_):
+        fp = os.path.join(d, "f%d.conf" % i)
+        with open(fp, "w", encoding="utf-8") as f:
+            f.write(t)
+        args.append(fp)
+    err = io.StringIO()
+    try:
+        with contextlib.redirect_stderr(err):
+            rc = validator.main(args)
+    except BaseException as e:  # noqa
+        rc = "%s: %s" % (type(e).__name__, e)
+    gc.collect()
+    return rc, err.getvalue()
+
+
+def validator_scenario(ctx, w, hook, with_import):
+    """File 1 imports a component and uses its types, file 2 uses them
+    without importing: an %import extends the vocabulary of its own load
+    only, so file 2 is invalid wherever it stands in the argument list."""
+    res = ctx.res
+    bare = strip_imports(with_import)
+    if expected(w, with_import)[0] != "accept" or \
+            expected(w, bare)[0] != "reject":
+        return
+    hook.phase = "config"
+    try:
+        for order in ([with_import, bare], [bare, with_import],
+                      [with_import, with_import, bare]):
+            res.evaluations += 1
+            res.count("validator_runs")
+            rc, msgs = validator_run(ctx, w, order)
+            if rc != 1:
+                res.violate(
+                    "import-of-one-file-serves-the-next",
+                    {"xml": w.xml, "texts": order, "via": "validator",
+                     "components": [[n, ts] for n, ts in w.components],
+                     "imports": dict(w.imports),
+                     "schema_level": list(w.schema_level)
+                     if w.schema_level else None, "model": w.model},
+                    "status 1 (the file without %import is invalid)",
+                    [rc, msgs[:300]],
+                    detail="validator over %d files -> %r; files=%r"
+                    % (len(order), rc, order),
+                    vsig="validator|%s" % rc)
+                break
+    finally:
+        hook.phase = "schema"
+
+
 def run_world(ctx, w, hook, rng):
     res = ctx.res
     hook.app_ids = set(id(w.schema.gettype(a)) for a in w.abstracts)
     comp_types = set(t["name"] for _, ts in w.components for t in ts)
+    for_validator = None
     for _ in range(SEQS[ctx.tier]):
         for li in range(rng.randint(1, 4)):
             text, kinds = gen_text(rng, w)
             res.evaluations += 1
             exp = expected(w, text)
+            if for_validator is None and exp[0] == "accept" and \
+                    "%import" in text:
+                for_validator = text
             before = w.subtype_tables()
             hook.phase = "config"
             hook.events = []
@@ -508,6 +574,8 @@ def run_world(ctx, w, hook, rng):
                                                          text),
                             mechanism=mech,
                             vsig="table|%s" % mech)
+    if for_validator is not None and rng.random() < 0.5:
+        validator_scenario(ctx, w, hook, for_validator)
 
 
 def run_shard(ctx):
@@ -562,6 +630,13 @@ def replay(ctx, case):
         w.imports = imports
         w.closure = lambda imported: World.closure(w, imported)
         w.resolved_with = lambda imported: World.resolved_with(w, imported)
+        if case.get("via") == "validator":
+            w.xml = case["xml"]
+            rc, msgs = validator_run(ctx, w, case["texts"])
+            if rc != 1:
+                ctx.res.violate("import-of-one-file-serves-the-next", case,
+                                "status 1", [rc, msgs[:300]])
+            return
         schema = ZConfig.loadSchemaFile(io.StringIO(case["xml"]))
         exp = expected(w, case["text"])
         obs = outcome.load_text(schema, case["text"])
